@@ -134,7 +134,8 @@ def gen(rng, tier):
                 for k in range(rng.choice([1, 1, 2, 3])):
                     # compound extensions are selected by their whole suffix: types.d.ts, app.spec.js, build.gradle.kts
                     ext = rng.choice(EXTS + [".txt", ".md", ".javax", ".d.ts", ".spec.js", ".gradle.kts"])
-                    path = rng.choice(["", "src/", "a/b/"]) + "f%d%s" % (k, ext)
+                    # (directories whose names begin with a dot are part of the tree like any other)
+                    path = rng.choice(["", "src/", "a/b/", ".ci/", "src/.gen/"]) + "f%d%s" % (k, ext)
                     segs = rand_segments(rng)
                     if rng.random() < 0.1:
                         segs.append(("code", ["x"]))
@@ -154,6 +155,8 @@ def gen(rng, tier):
                 c = {"op": "todo", "files": files, "filters": filters, "expected": exp}
                 if rng.random() < (0.06 if tier == "quick" else 0.01):
                     c["cli"] = True      # through the real `coca todo -p dir -e exts` in a fresh process (coca_reporter/simple-todos.json)
+                    if rng.random() < 0.5:
+                        c["relroot"] = True      # ... run inside the tree with the command's default root `.`
                 sh.append(c)
             else:
                 text = "".join(rng.choice(SOUP) for _ in range(rng.choice([1, 2, 3, 5, 9, 20])))
